@@ -18,7 +18,7 @@ recovery. In range_query the cursor starts at lower_bound(Included(start_key)), 
 (strict, so end is inclusive) or `len >= limit`, a stale / vanished value advances the cursor without pushing and any
 other error is returned. Not decided: completeness under concurrent churn.
 """
-DECIDED = ['the ordered-index slot / node receives the same record as the hash entry at every publication site', "hash index / ordered index pairing under the bucket guard, tree-first removal", "in-place slot swap on update",
+DECIDED = ['every value tier reachable from the scan lies behind the lazy expiry test (shared with C11.lazy)', 'the ordered-index slot / node receives the same record as the hash entry at every publication site', "hash index / ordered index pairing under the bucket guard, tree-first removal", "in-place slot swap on update",
            "inclusive bounds and limit test of the scan; stale entries skipped, other errors returned",
            "range scan: key resolved = key pushed = this entry's key; record = this entry's slot"]
 NOT_DECIDED = ["completeness / no duplicates under concurrent writers (schedules)", "values returned are current (tier behaviour)"]
@@ -210,7 +210,14 @@ def check_range_resolution(ctx, inst="C14.resolve"):
             ctx.check(same, inst, "PROVENANCE", body.path, "the key pushed and the key resolved belong to the same entry", body.where(p_))
 
 
+def check_expiry_first(ctx):
+    """a range scan returns only unexpired keys because every value tier it can reach lies behind the lazy expiry test of resolve_record_value: nobody else may read a record's resident value, the cache or the device for a caller (same rule as C11.lazy / C16.expiry-first; added after C14-i, a resident-value fast path in resolve_value_ref that skipped the test)"""
+    from rules import C11
+    C11.check_lazy(ctx, "C14.expiry-first")
+
+
 def check(ctx):
+    check_expiry_first(ctx)
     check_range_resolution(ctx)
     check_pair(ctx)
     check_slot(ctx)
